@@ -77,9 +77,9 @@ pub fn exact_planned(prop: &str, n: usize, dir: FftDirection, full_basis: bool, 
 /// 5*2^18 ... 2^22: 9 and more radix-4 layers, every residue of n mod 4 (3^13 and 5^9 are odd, 2*3^12*... even but not
 /// divisible by 4), the first lengths whose tables exceed 2^20 entries.
 pub fn huge_list(thorough: bool) -> Vec<usize> {
-    let mut v = vec![5usize << 18, 1 << 21, 3 << 20, 1 << 22, 1594323 /* 3^13 */, 1953125 /* 5^9 */, 2 * 531441 * 3 /* 2*3^13 */];
+    let mut v = vec![5usize << 18, 1 << 21, 1 << 22, 1594323 /* 3^13 */, 1953125 /* 5^9 */];
     if thorough {
-        v.extend_from_slice(&[7 << 18, 9 << 19, 3 << 21, 1 << 23, 7 * 177147 /* 7*3^11 */, 11 * 177147, 2 * 1953125, 4782969 /* 3^14 */]);
+        v.extend_from_slice(&[3 << 20, 2 * 531441 * 3 /* 2*3^13 */, 7 << 18, 9 << 19, 3 << 21, 1 << 23, 7 * 177147 /* 7*3^11 */, 11 * 177147, 2 * 1953125, 4782969 /* 3^14 */]);
     }
     v
 }
@@ -102,6 +102,13 @@ pub fn huge_lengths(prop: &'static str, lens: &[usize], tol_mult: f64, rep: &mut
             None => return,
         };
         let b = bound::<T>(n) * tol_mult + 4.0 * f64::EPSILON;
+        // every buffer of the job is allocated ONCE: blocks of 32 MiB and more are mmap'ed by the allocator, and 16
+        // threads mapping, faulting in and unmapping them for every call spend their time in the kernel
+        let z = C::new(T::from64(0.0), T::from64(0.0));
+        let mut x: Vec<C<T>> = vec![z; n];
+        let mut data: Vec<C<T>> = vec![z; n];
+        let mut out: Vec<C<T>> = vec![z; n];
+        let mut want: Vec<C<f64>> = vec![C::new(0.0, 0.0); n];
         for d in DIRS {
             let f = match plan_catch(&mut pl, n, d) {
                 Ok(f) => f,
@@ -111,52 +118,66 @@ pub fn huge_lengths(prop: &'static str, lens: &[usize], tol_mult: f64, rep: &mut
                 }
             };
             rep.states += 1;
+            let mut scr: Vec<C<T>> = vec![z; f.get_inplace_scratch_len().max(f.get_immutable_scratch_len())];
             let sign = if d == FftDirection::Forward { -1.0 } else { 1.0 };
-            let tone = |j: usize| -> Vec<C<f64>> {
-                (0..n)
-                    .map(|k| {
-                        let idx = ((j as u128 * k as u128) % n as u128) as f64;
-                        let a = sign * 2.0 * std::f64::consts::PI * idx / n as f64;
-                        C::new(a.cos(), a.sin())
-                    })
-                    .collect()
-            };
-            let mut delta = |k: usize| -> Vec<C<f64>> {
-                let mut v = vec![C::new(0.0, 0.0); n];
-                v[k] = C::new(n as f64, 0.0);
-                v
-            };
-            let imp = |j: usize| -> Vec<C<f64>> {
-                let mut v = vec![C::new(0.0, 0.0); n];
-                v[j] = C::new(1.0, 0.0);
-                v
-            };
-            let mut cases: Vec<(String, Vec<C<f64>>, Vec<C<f64>>)> = vec![
-                ("impulse:re:0".into(), imp(0), vec![C::new(1.0, 0.0); n]),
-                ("ones".into(), vec![C::new(1.0, 0.0); n], delta(0)),
-                ("impulse:re:1".into(), imp(1), tone(1)),
-                (format!("impulse:re:{}", n / 2 + 1), imp(n / 2 + 1), tone(n / 2 + 1)),
-            ];
+            let mut names: Vec<String> = vec!["impulse:re:0".into(), "ones".into(), "impulse:re:1".into(), format!("impulse:re:{}", n / 2 + 1)];
             if n % 2 == 0 {
-                cases.push(("alternating".into(), (0..n).map(|j| C::new(if j % 2 == 0 { 1.0 } else { -1.0 }, 0.0)).collect(), delta(n / 2)));
+                names.push("alternating".into());
             }
-            for (name, x, want) in &cases {
-                let xt: Vec<C<T>> = from_c64(x);
-                let wn = crate::refdft::norm2(want);
+            for name in &names {
+                // fill input and expected spectrum in place
+                let one = C::new(T::from64(1.0), T::from64(0.0));
+                match name.as_str() {
+                    "ones" => {
+                        x.iter_mut().for_each(|v| *v = one);
+                        want.iter_mut().for_each(|v| *v = C::new(0.0, 0.0));
+                        want[0] = C::new(n as f64, 0.0);
+                    }
+                    "alternating" => {
+                        x.iter_mut().enumerate().for_each(|(j, v)| *v = C::new(T::from64(if j % 2 == 0 { 1.0 } else { -1.0 }), T::from64(0.0)));
+                        want.iter_mut().for_each(|v| *v = C::new(0.0, 0.0));
+                        want[n / 2] = C::new(n as f64, 0.0);
+                    }
+                    imp => {
+                        let j: usize = imp.rsplit(':').next().and_then(|t| t.parse().ok()).unwrap_or(0);
+                        x.iter_mut().for_each(|v| *v = z);
+                        x[j] = one;
+                        let mut idx = 0usize; // (j*k) mod n, incrementally
+                        for w in want.iter_mut() {
+                            let a = sign * 2.0 * std::f64::consts::PI * (idx as f64) / n as f64;
+                            *w = C::new(a.cos(), a.sin());
+                            idx += j;
+                            if idx >= n {
+                                idx -= n;
+                            }
+                        }
+                    }
+                }
+                let wn = crate::refdft::norm2(&want);
                 for e in [Entry::InPlace, Entry::Immut] {
                     let key = format!("{}|part=huge|pk={}|T={}|dir={}|n={}|entry={}|in={}", prop, pk.name(), T::NAME, dir_name(d), n, e.name(), name);
                     rep.evaluations += 1;
                     rep.transitions += 1;
                     rep.distinct_nontrivial += 1;
-                    match call_plain(f.as_ref(), e, &xt).out {
-                        None => rep.violate(key, "well-shaped call panicked".into(), Json::Null),
-                        Some(o) => {
-                            let diff: Vec<C<f64>> = o.iter().zip(want).map(|(a, w)| C::new(a.re.to64() - w.re, a.im.to64() - w.im)).collect();
-                            let err = crate::refdft::norm2(&diff);
-                            if !(err <= b * wn) {
-                                rep.violate(key, format!("relative L2 error {:e} exceeds allowance {:e}", err / wn, b), Json::Null);
-                            }
-                        }
+                    data.copy_from_slice(&x);
+                    let sl = e.scratch_len(f.as_ref());
+                    let r = std::panic::catch_unwind(std::panic::AssertUnwindSafe(|| match e {
+                        Entry::InPlace => f.process_with_scratch(&mut data, &mut scr[..sl]),
+                        _ => f.process_immutable_with_scratch(&x, &mut out, &mut scr[..sl]),
+                    }));
+                    if r.is_err() {
+                        rep.violate(key, "well-shaped call panicked".into(), Json::Null);
+                        continue;
+                    }
+                    let o: &[C<T>] = if e == Entry::InPlace { &data } else { &out };
+                    let mut e2 = 0.0f64;
+                    for (a, w) in o.iter().zip(want.iter()) {
+                        let (dr, di) = (a.re.to64() - w.re, a.im.to64() - w.im);
+                        e2 += dr * dr + di * di;
+                    }
+                    let err = e2.sqrt();
+                    if !(err <= b * wn) {
+                        rep.violate(key, format!("relative L2 error {:e} exceeds allowance {:e}", err / wn, b), Json::Null);
                     }
                 }
             }
@@ -164,10 +185,14 @@ pub fn huge_lengths(prop: &'static str, lens: &[usize], tol_mult: f64, rep: &mut
     }
     let parts = par_map(&jobs, |_, &(n, pk, is32)| {
         let mut r = Report::new();
+        let t0 = std::time::Instant::now();
         if is32 {
             one::<f32>(prop, n, pk, tol_mult, &mut r);
         } else {
             one::<f64>(prop, n, pk, tol_mult, &mut r);
+        }
+        if std::env::var("VERIF_TIMING").is_ok() {
+            eprintln!("huge {} {} n={} took {:.1}s", pk.name(), if is32 { "f32" } else { "f64" }, n, t0.elapsed().as_secs_f64());
         }
         r
     });
@@ -181,6 +206,12 @@ pub fn run(ctx: &Ctx) -> i32 {
         return replay(ctx, r);
     }
     let t = ctx.tier;
+    if std::env::var("VERIF_ONLY_HUGE").is_ok() {
+        let mut rep = Report::new();
+        huge_lengths("C01", &huge_list(false), TOL_MULT, &mut rep);
+        std::env::set_var("VERIF_EVIDENCE_PART", "debug");
+        return finalize(ctx, rep);
+    }
     // ---- float layer
     let dense_n = t.pick(384, 2048);
     let mut lens_f: Vec<usize> = lens::dense(dense_n);
